@@ -392,4 +392,32 @@ theorem tmod_lit (a b : Int) : Int.tmod a b = if 0 ≤ a then a % b else -((-a) 
     have e : Int.tmod a b = - (Int.tmod (-a) b) := by rw [Int.neg_tmod]; omega
     rw [e, Int.tmod_eq_emod_of_nonneg (by omega)]
 
+/-! ## towards Hinnant's `days_from_civil` -/
+
+/-- days from 0000-03-01 to `z`-03-01 -/
+def marchDays (z : Int) : Int := 365 * z + z / 4 - z / 100 + z / 400
+
+theorem hinnant_era (z : Int) :
+    z / 400 * 146097 + ((z - z / 400 * 400) * 365 + (z - z / 400 * 400) / 4 - (z - z / 400 * 400) / 100) = marchDays z := by
+  unfold marchDays; omega
+
+theorem tfy_march (y : Int) : timeFromYearAsDays y = marchDays (y - 1) + 366 - 719528 := by
+  unfold timeFromYearAsDays marchDays; omega
+
+theorem march_step (y : Int) (l : Bool) (hl : l = true ↔ (y % 4 = 0 ∧ (y % 100 ≠ 0 ∨ y % 400 = 0))) :
+    marchDays y = marchDays (y - 1) + (if l then 366 else 365) := by
+  unfold marchDays
+  cases l
+  · have : ¬ (y % 4 = 0 ∧ (y % 100 ≠ 0 ∨ y % 400 = 0)) := fun h => absurd (hl.mpr h) (by simp)
+    simp only [Bool.false_eq_true, if_false]; omega
+  · have := hl.mp rfl
+    simp only [if_true]; omega
+
+theorem mdays_vals (l : Bool) :
+    mdays l 1 = 0 ∧ mdays l 2 = 31 ∧ mdays l 3 = (if l then 60 else 59) ∧ mdays l 4 = (if l then 91 else 90) ∧
+    mdays l 5 = (if l then 121 else 120) ∧ mdays l 6 = (if l then 152 else 151) ∧ mdays l 7 = (if l then 182 else 181) ∧
+    mdays l 8 = (if l then 213 else 212) ∧ mdays l 9 = (if l then 244 else 243) ∧ mdays l 10 = (if l then 274 else 273) ∧
+    mdays l 11 = (if l then 305 else 304) ∧ mdays l 12 = (if l then 335 else 334) := by
+  cases l <;> decide
+
 end AslProofs.Date
